@@ -11,6 +11,7 @@ Oracle `c03.object`: the same for dataclass instances, the expected tree being
 computed from a declarative description of the binding model by the rules the
 xsdata documentation gives (c03_models.py).
 """
+import copy
 import re
 from xml.parsers import expat
 
@@ -234,11 +235,21 @@ def _parts(exp):
     raise ValueError(exp)
 
 
+# deviations a known finding predicts (switched on only while a failure is being explained)
+TOL = set()
+TOL_DEFAULT = [None]
+TOL_LATE = set()        # namespaces of late QName values (native writer only)
+
+
 def _qname_forms(uri, local, scope):
     """the lexical QNames that resolve to (uri, local) in this scope"""
     forms = []
     if (scope.get(None) or None) == uri:
         forms.append(local)
+    elif "c03-qname-default-ns" in TOL and uri is None:
+        forms.append(local)          # written bare although a default namespace is in scope
+    elif "c03-qname-default-reset" in TOL and uri is not None and uri == TOL_DEFAULT[0] and not scope.get(None):
+        forms.append(local)          # written bare, then the default namespace was reset
     for p, u in scope.items():
         if p is not None and u and u == uri:
             forms.append(p + ":" + local)
@@ -258,6 +269,10 @@ def _match_parts(actual, parts, scope):
             return "text %r does not continue with the literal %r" % (actual, head[1])
         return _match_parts(actual[len(head[1]):], rest, scope)
     forms = _qname_forms(head[1], head[2], scope)
+    if "c03-qname-late-prefix" in TOL and head[1]:
+        mm = re.match(r"([A-Za-z_][\w.\-]*):" + re.escape(head[2]), actual)
+        if mm and mm.group(1) not in scope:
+            forms = forms + [mm.group(0)]   # a generated or standard prefix that was never declared
     last = "no prefix in scope is bound to %r for QName {%s}%s at %r" % (head[1], head[1], head[2], actual[:40])
     for f in sorted(forms, key=len, reverse=True):
         if actual.startswith(f):
@@ -302,10 +317,19 @@ def compare_tree(actual, exp, path="/"):
     if actual[0] != exp[0]:
         return "%s: node kind %s, expected %s" % (here, actual[0], exp[0])
     if (actual[1], actual[2]) != (exp[1], exp[2]):
-        return "%s: element name {%s}%s, expected {%s}%s" % (here, actual[1], actual[2], exp[1], exp[2])
+        # c03-qname-late-prefix, native writer: the handler believes the namespace of a late QName value bound,
+        # XMLGenerator never heard of the binding and writes a later element of that namespace with a stale prefix
+        if not (exp[1] in TOL_LATE and actual[2] == exp[2]):
+            return "%s: element name {%s}%s, expected {%s}%s" % (here, actual[1], actual[2], exp[1], exp[2])
     scope = actual[5]
     got = {(a[0], a[1]): a[2] for a in actual[3]}
     want = {(a[0], a[1]): a[2] for a in exp[3]}
+    if TOL_LATE and set(got) != set(want):
+        # (see the element name above) an attribute of such a namespace written with a stale prefix
+        for k in [k for k in want if k[0] in TOL_LATE and k not in got]:
+            stale = [g for g in got if g not in want and g[1] == k[1]]
+            if len(stale) == 1:
+                got[k] = got.pop(stale[0])
     if set(got) != set(want):
         return "%s: attribute names %s, expected %s" % (here, sorted(got, key=str), sorted(want, key=str))
     for k in want:
@@ -358,36 +382,69 @@ def judge_output(text, exp):
     return None, ""
 
 
-def check_events(a):
-    try:
-        exp = expected_tree(a["events"], a["cfg"])
-    except NotJudged:
-        return None
+def _runs(a):
+    """(writer name, writer, configuration, only well-formedness?) for every run the oracle makes"""
     for wname, w in WRITERS.items():
         cfg = dict(a["cfg"])
         if wname == "lxml":
             cfg.pop("indent", None)
         elif cfg.get("indent"):
             continue  # indentation adds character data by design; checked for well-formedness below
-        try:
-            text = S.run_writer(w, a["events"], a["ns_map"], cfg)
-        except (SerializerError, XmlWriterError):
-            continue
-        except Exception as e:  # noqa: BLE001
-            return "writer=%s kind=leak:%s %s" % (wname, type(e).__name__, str(e)[:100])
-        kind, detail = judge_output(text, exp)
-        if kind:
-            return "writer=%s kind=%s %s" % (wname, kind, detail)
+        yield wname, w, cfg, False
     if a["cfg"].get("indent") and S.xml_chars(a["cfg"]["indent"]) and not a["cfg"]["indent"].strip(" \t\n\r"):
-        try:
-            text = S.run_writer(XmlEventWriter, a["events"], a["ns_map"], a["cfg"])
-        except (SerializerError, XmlWriterError):
-            return None
-        except Exception as e:  # noqa: BLE001
-            return "writer=native kind=leak:%s %s (indent)" % (type(e).__name__, str(e)[:100])
-        if S.parse_infoset(text) is None:
-            return "writer=native kind=not-wf indented output %r" % text[:200]
-    return None
+        yield "native", XmlEventWriter, a["cfg"], True
+
+
+def _run(a, w, cfg):
+    """("text", text) | ("declared", None) | ("leak", exception)"""
+    try:
+        return "text", S.run_writer(w, a["events"], a["ns_map"], cfg)
+    except (SerializerError, XmlWriterError):
+        return "declared", None
+    except Exception as e:  # noqa: BLE001
+        return "leak", e
+
+
+def _failures(a):
+    """every way the two writers fail on the input: (message, writer name, writer, cfg, kind, wf_only)"""
+    try:
+        exp = expected_tree(a["events"], a["cfg"])
+    except NotJudged:
+        return []
+    out = []
+    for wname, w, cfg, wf_only in _runs(a):
+        how, r = _run(a, w, cfg)
+        if how == "declared":
+            continue
+        if how == "leak":
+            kind = "leak:%s" % type(r).__name__
+            out.append(("writer=%s kind=%s %s%s" % (wname, kind, str(r)[:100], " (indent)" if wf_only else ""), wname, w, cfg, kind, wf_only))
+            continue
+        if wf_only:
+            if S.parse_infoset(r) is None:
+                out.append(("writer=native kind=not-wf indented output %r" % r[:200], wname, w, cfg, "not-wf", True))
+            continue
+        kind, detail = judge_output(r, exp)
+        if kind:
+            out.append(("writer=%s kind=%s %s" % (wname, kind, detail), wname, w, cfg, kind, False))
+    return out
+
+
+def _messages(a):
+    return [f[0] for f in _failures(a)]
+
+
+def check_events(a):
+    """None, or a failure message: one that no known finding explains if there is such a one
+    (a known defect of one writer must not hide an unknown one of the other)"""
+    fails = _failures(a)
+    if not fails:
+        return None
+    for f in fails:
+        why = explain_failure(a, f)
+        if why[0] is None:
+            return f[0] + why[1]
+    return fails[0][0]
 
 
 # ------------------------------------------------------------------ known findings: predicates on the input
@@ -471,6 +528,19 @@ def p_nonxml_chars(a):
     return any(not S.xml_chars(s) for _, s in _texts(a)) or any(not S.xml_chars(u) for u in _uris(a))
 
 
+def late_qname_namespaces(a):
+    """namespaces of the QName values in DATA events that are not the first content event after their START"""
+    out = set()
+    prev = None
+    for e in a["events"]:
+        if e[0] == "data" and prev not in ("start", "attr"):
+            for q in _qname_atoms(e[1]):
+                if q.startswith("{"):
+                    out.add(q[1:q.find("}")])
+        prev = e[0]
+    return out
+
+
 def p_qname_late(a):
     """a QName value with a namespace in a DATA event that is not the first
     content event after its START (its prefix is created after the element's
@@ -528,31 +598,182 @@ KNOWN = {
 }
 
 
-def as_unchanged(a, w):
-    """Does writer `w` still produce on this very input what the model of the unchanged code produces (native: the
-    exact text; lxml: the tree of the model's SAX calls)?  A listed finding describes the unchanged code: a failure
-    on an input where the implementation no longer behaves like it is a violation of another kind."""
-    from framework import behaves_as_modelled
-    from props import c03 as P
+# ---- counterfactuals: the input with the trait of one finding removed, everything else kept
+def _map_values(a, f_attr, f_data):
+    b = copy.deepcopy(a)
+    prev = None
+    for e in b["events"]:
+        if e[0] == "attr" and len(e) >= 3:
+            e[2] = f_attr(e[2], e, prev)
+        elif e[0] == "data" and len(e) >= 2:
+            e[1] = f_data(e[1], e, prev)
+        prev = e[0]
+    return b
 
-    op = {"native": "writer.native", "lxml": "writer.lxml"}[w]
-    args = {"events": a["events"], "ns_map": a["ns_map"], "cfg": dict(a["cfg"])}
-    if w == "lxml":
-        args["cfg"].pop("indent", None)  # as check_events runs it
-    return behaves_as_modelled(next(c for c in P.CORRS if c.op == op), args)
+
+def _each_atom(v, f):
+    if isinstance(v, list):
+        return [f(x) for x in v]
+    return f(v)
+
+
+def n_nonxml_chars(a):
+    def clean(s):
+        return "".join(c if S.xml_chars(c) else "_" for c in s)
+
+    def atom(x):
+        if isinstance(x, str):
+            return clean(x)
+        if isinstance(x, dict) and "q" in x:
+            return {"q": clean(x["q"])}
+        return x
+
+    b = _map_values(a, lambda v, e, p: _each_atom(v, atom), lambda v, e, p: _each_atom(v, atom))
+    for e in b["events"]:
+        if e[0] in ("start", "end", "attr") and isinstance(e[1], str):
+            e[1] = clean(e[1])
+    b["ns_map"] = [[p, clean(u) if isinstance(u, str) else u] for p, u in b["ns_map"]]
+    for k in ("schema_location", "no_ns"):
+        if b["cfg"].get(k):
+            b["cfg"][k] = clean(b["cfg"][k])
+    return b
+
+
+def n_prefix_unicode_ncname(a):
+    b = copy.deepcopy(a)
+    out = []
+    for i, (p, u) in enumerate(b["ns_map"]):
+        if isinstance(p, str) and p and not S.is_ncname(p) and _py_ncname(p) and any(ord(c) > 127 for c in p):
+            p = "u%d" % i
+        out.append([p, u])
+    b["ns_map"] = out
+    return b
+
+
+def _local(t):
+    return t[t.find("}") + 1:] if t.startswith("{") else t
+
+
+def n_qname_late(a):
+    def data(v, e, prev):
+        if prev in ("start", "attr"):
+            return v
+        return _each_atom(v, lambda x: _local(x["q"]) if isinstance(x, dict) and "q" in x and x["q"].startswith("{") else x)
+
+    return _map_values(a, lambda v, e, p: v, data)
+
+
+def n_qname_default(a):
+    def atom(x):
+        return x["q"] if isinstance(x, dict) and "q" in x and x["q"] and not x["q"].startswith("{") else x
+
+    return _map_values(a, lambda v, e, p: _each_atom(v, atom), lambda v, e, p: _each_atom(v, atom))
+
+
+def n_qname_default_reset(a):
+    d = user_map(a["ns_map"]).get(None)
+    b = copy.deepcopy(a)
+    unqualified = False
+    for e in b["events"]:
+        if e[0] == "start":
+            c = S.clark(e[1])
+            unqualified = c is not None and c[0] is None
+        elif e[0] == "end":
+            unqualified = False
+        elif e[0] in ("attr", "data") and unqualified:
+            def atom(x, attr=e[0] == "attr"):
+                t = x["q"] if isinstance(x, dict) and "q" in x else (x if attr and isinstance(x, str) and x.startswith("{") else None)
+                if t:
+                    c = S.clark(t)
+                    if c and c[0] == d:
+                        return c[1]
+                return x
+
+            e[-1] = _each_atom(e[-1], atom)
+    return b
+
+
+NEUTRAL = {
+    "c03-qname-default-reset": n_qname_default_reset,
+    "c03-prefix-unicode-ncname": n_prefix_unicode_ncname,
+    "c03-nonxml-chars": n_nonxml_chars,
+    "c03-qname-late-prefix": n_qname_late,
+    "c03-qname-default-ns": n_qname_default,
+}
+
+
+def _predicted(fid, a, b, f):
+    """does the failure `f` of input `a` deviate from a correct run exactly as finding `fid` predicts?
+    (`b`: the input without the trait).  None = yes, else what else is wrong."""
+    _, wname, w, cfg, kind, wf_only = f
+    if kind.startswith("leak:"):
+        return None                    # no output to look at: the counterfactual has to do
+    how, text = _run(a, w, cfg)
+    if how != "text":
+        return "the run is not reproducible"
+    if kind == "infoset":
+        # the document must be right up to the deviations that the findings whose trait the input has predict
+        # (without this finding's deviation it must not be: that is the failure being explained)
+        present = {g for g, (pred, _) in KNOWN.items() if pred(a)}
+        TOL.update(present)
+        TOL_DEFAULT[0] = user_map(a["ns_map"]).get(None)
+        if "c03-qname-late-prefix" in present and wname == "native":
+            TOL_LATE.update(late_qname_namespaces(a))
+        try:
+            k2, d2 = judge_output(text, expected_tree(a["events"], a["cfg"]))
+        finally:
+            TOL.clear()
+            TOL_LATE.clear()
+            TOL_DEFAULT[0] = None
+        return None if k2 is None else "apart from what the findings %s predict: %s %s" % (sorted(present), k2, d2[:200])
+    if kind == "not-wf" and fid == "c03-nonxml-chars":
+        # the writer treats the characters as opaque: the text is that of the clean run, character by character
+        cfgb = dict(cfg)
+        for k in ("schema_location", "no_ns"):
+            if b["cfg"].get(k):
+                cfgb[k] = b["cfg"][k]
+        howb, textb = _run(b, w, cfgb)
+        clean = "".join(c if S.xml_chars(c) else "_" for c in text)
+        return None if howb == "text" and clean == textb else "the text is not that of the run without the characters: %r vs %r" % (clean[:200], (textb or "")[:200])
+    if kind == "not-wf" and fid == "c03-prefix-unicode-ncname":
+        howb, textb = _run(b, w, cfg)
+        t = text
+        for (p, _), (p2, _) in zip(a["ns_map"], b["ns_map"]):
+            if p != p2:
+                t = t.replace(p, p2)
+        return None if howb == "text" and t == textb else "the text is not that of the run with an ASCII prefix: %r vs %r" % (t[:200], (textb or "")[:200])
+    return None
+
+
+def explain_failure(a, f, depth=0):
+    """(finding id, "") when a known finding explains the failure `f` of input `a`:
+    * the input has the finding's trait and the failure is of a kind the finding produces on that writer,
+    * the output deviates from a correct one exactly as the finding predicts (`_predicted`),
+    * the same input without the trait passes, or fails only in ways known findings explain;
+    otherwise (None, note)."""
+    msg, wname, w, cfg, kind, wf_only = f
+    note = ""
+    for fid, (pred, where) in KNOWN.items():
+        if kind in where.get(wname, ()) and pred(a):
+            b = NEUTRAL[fid](a)
+            if pred(b):
+                note = " [counterfactual of %s still has the trait]" % fid
+                continue
+            other = _predicted(fid, a, b, f)
+            if other:
+                note = " [%s does not explain it: %s]" % (fid, other)
+                continue
+            bad = [r for r in _failures(b) if depth >= 4 or explain_failure(b, r, depth + 1)[0] is None]
+            if not bad:
+                return fid, ""
+            note = " [without the trait of %s (ns_map=%r, events=%r) it still fails: %s]" % (fid, b["ns_map"], b["events"], bad[0][0][:200])
+    return None, note
 
 
 def covered_events(a, msg):
-    m = re.match(r"writer=(\w+) kind=(\S+)", msg)
-    if not m:
-        return None
-    w, kind = m.group(1), m.group(2)
-    for fid, (pred, where) in KNOWN.items():
-        if kind in where.get(w, ()) and pred(a):
-            # (both writers: check_events stops at the first writer that fails, the other one must not hide behind it)
-            if as_unchanged(a, "native") is False or as_unchanged(a, "lxml") is False:
-                return None  # inside the finding's region, but not what the unchanged code writes there
-            return fid
+    for f in _failures(a):
+        if f[0] == msg or msg.startswith(f[0]):
+            return explain_failure(a, f)[0]
     return None
 
 
@@ -639,7 +860,12 @@ def f_qname_late():
     out2 = _render(Mixed(content=[AnyElement(qname="B"), QName("{urn:x}y")]))
     lx = _render(Mixed(content=[AnyElement(qname="B"), QName("{urn:x}y")]), None, LxmlEventWriter)
     bad = out == "EXC KeyError" and out2 == "<M><B/>ns0:y</M>" and lx == "<M><B/>ns0:y</M>"
-    return bad, "render(M mixed [B, QName({urn:x}y), {urn:x}C]) -> %s; without C -> %s (prefix ns0 never declared; lxml the same)" % (out, out2)
+    # third face: the later element is written with a stale (empty) prefix
+    ev = [["start", "{urn:a}R"], ["start", "b"], ["start", "c"], ["end", "c"], ["data", {"q": "{urn:a}x"}],
+          ["start", "{urn:a}a"], ["end", "{urn:a}a"], ["end", "b"], ["end", "{urn:a}R"]]
+    out3 = S.run_writer(XmlEventWriter, ev, [["", "urn:a"]], {})
+    bad = bad and out3 == '<R xmlns="urn:a"><b xmlns=""><c/>ns1:x<a/></b></R>'
+    return bad, "render(M mixed [B, QName({urn:x}y), {urn:x}C]) -> %s; without C -> %s (prefix ns0 never declared; lxml the same); stale prefix: %s" % (out, out2, out3)
 
 
 @dataclass
